@@ -14,7 +14,7 @@ EXTENDS Integers, Sequences, FiniteSets, TLC
 PaletteTypes == {"bool", "int8", "int16", "int32", "int64", "string", "[]byte", "*int", "any", "[3]int8",
                  "struct{}", "[0]int64", "uint16", "float64", "float32", "complex128", "[65536]byte", "uintptr", "fmt.Stringer",
                  "map[string]int", "map[int]int", "map[int8]int", "chan int", "<-chan int", "chan<- int",
-                 "uint8", "opticsdrv.Label", "opticsdrv.Tag", "opticsdrv.Byte8", "opticsdrv.Count", "Twin", "PkgTwin"}
+                 "uint8", "opticsdrv.Label", "opticsdrv.Tag", "opticsdrv.Byte8", "opticsdrv.Count", "Same", "PkgSame"}
 
 LeafSize(t) == CASE t = "bool" -> 1 [] t = "int8" -> 1 [] t = "int16" -> 2 [] t = "int32" -> 4 [] t = "int64" -> 8
                  [] t = "string" -> 16 [] t = "[]byte" -> 24 [] t = "*int" -> 8 [] t = "any" -> 16
@@ -22,21 +22,21 @@ LeafSize(t) == CASE t = "bool" -> 1 [] t = "int8" -> 1 [] t = "int16" -> 2 [] t 
                  [] t = "float64" -> 8 [] t = "float32" -> 4 [] t = "complex128" -> 16 [] t = "[65536]byte" -> 65536
                  [] t = "uintptr" -> 8 [] t = "fmt.Stringer" -> 16
                  [] t \in {"map[string]int", "map[int]int", "map[int8]int", "chan int", "<-chan int", "chan<- int", "opticsdrv.Count"} -> 8
-                 [] t \in {"uint8", "opticsdrv.Byte8"} -> 1 [] t \in {"opticsdrv.Label", "opticsdrv.Tag", "Twin", "PkgTwin"} -> 16
+                 [] t \in {"uint8", "opticsdrv.Byte8"} -> 1 [] t \in {"opticsdrv.Label", "opticsdrv.Tag", "Same", "PkgSame"} -> 16
 LeafAlign(t) == CASE t = "bool" -> 1 [] t = "int8" -> 1 [] t = "int16" -> 2 [] t = "int32" -> 4 [] t = "int64" -> 8
                  [] t = "string" -> 8 [] t = "[]byte" -> 8 [] t = "*int" -> 8 [] t = "any" -> 8
                  [] t = "[3]int8" -> 1 [] t = "struct{}" -> 1 [] t = "[0]int64" -> 8 [] t = "uint16" -> 2
                  [] t = "float64" -> 8 [] t = "float32" -> 4 [] t = "complex128" -> 8 [] t = "[65536]byte" -> 1
                  [] t = "uintptr" -> 8 [] t = "fmt.Stringer" -> 8
                  [] t \in {"map[string]int", "map[int]int", "map[int8]int", "chan int", "<-chan int", "chan<- int", "opticsdrv.Count"} -> 8
-                 [] t \in {"uint8", "opticsdrv.Byte8"} -> 1 [] t \in {"opticsdrv.Label", "opticsdrv.Tag", "Twin", "PkgTwin"} -> 8
+                 [] t \in {"uint8", "opticsdrv.Byte8"} -> 1 [] t \in {"opticsdrv.Label", "opticsdrv.Tag", "Same", "PkgSame"} -> 8
 \* types that are *not* identical to t but structurally close to it: maps with the same element type and another key
 \* type, channels of another direction, defined types (type Label string, type Tag string, type Byte8 uint8,
-\* type Count int64 in the harness) against their underlying type and against each other; "Twin" / "PkgTwin": two
-\* *different* defined types with the same printed name and the same kind - `type Twin string` declared inside the function
-\* that declares the struct, and the package-level `type Twin string` of the same package, reached through an alias (hseq only)
+\* type Count int64 in the harness) against their underlying type and against each other; "Same" / "PkgSame": two
+\* *different* defined types with the same printed name and the same kind - `type Same string` declared inside the function
+\* that declares the struct, and the package-level `type Same string` of the same package, reached through an alias
 CloseClasses == { {"map[string]int", "map[int]int", "map[int8]int"}, {"chan int", "<-chan int", "chan<- int"},
-                  {"string", "opticsdrv.Label", "opticsdrv.Tag"}, {"Twin", "PkgTwin"}, {"uint8", "opticsdrv.Byte8"}, {"int64", "opticsdrv.Count"} }
+                  {"string", "opticsdrv.Label", "opticsdrv.Tag"}, {"Same", "PkgSame"}, {"uint8", "opticsdrv.Byte8"}, {"int64", "opticsdrv.Count"} }
 CloseTypes(t) == UNION {C \ {t} : C \in {C \in CloseClasses : t \in C}}
 CloseAll(S) == UNION {CloseTypes(t) : t \in S}
 \* how many distinguishable values the harness knows for a leaf type (value index 0 = the zero value)
